@@ -18,11 +18,16 @@ type Sent struct {
 }
 
 type Comm struct {
-	Out []*Sent
+	Out  []*Sent
+	Hook func(s *Sent) // called at send time (harness records the node state)
 }
 
 func (c *Comm) SendConsensusMessage(ctx context.Context, recipients []primitives.MemberId, message *interfaces.ConsensusRawMessage) error {
-	c.Out = append(c.Out, &Sent{To: recipients, Raw: message, Msg: interfaces.ToConsensusMessage(message)})
+	s := &Sent{To: recipients, Raw: message, Msg: interfaces.ToConsensusMessage(message)}
+	c.Out = append(c.Out, s)
+	if c.Hook != nil {
+		c.Hook(s)
+	}
 	return nil
 }
 
